@@ -43,6 +43,12 @@ NodePayCase(id, kind, p, scale, big) ==
 NodeFeeCase(id, kind, p, scale, big) ==
   Case(id, "node", kind, IF kind = "hourly" THEN Unl(2, 12) ELSE Ctl(2, 24, big), p, scale, 1000000, EPOCH,
        FeeReqs(p) \cup {RestartReq})
+\* a limit near u64::MAX at node level (saturating arithmetic through add_keysend): only "same
+\* bucket" and "everything expired" deltas, otherwise small amounts pile up in every bucket
+NodeNearmaxCase(id, kind, p, scale) ==
+  Case(id, "node", kind, p, Unl(2, 12), scale, 1000, EPOCH,
+       {Req("AddKeysend", dt, a) : dt \in {0, p.K * p.B}, a \in Amounts(p, {})}
+         \cup {Req("AddInvoice", dt, a) : dt \in {0, p.K * p.B}, a \in {1, 2}} \cup {RestartReq})
 \* both controls limited; small alphabet: an approved payment persists the fee control as well
 NodeMixedCase(id, kind, p, f, scale) ==
   Case(id, "node", kind, p, f, scale, 1000000, EPOCH,
@@ -70,7 +76,7 @@ ThoroughCases ==
      ApproverCase("a-daily-2", "daily", Daily(2), 1800),
      NodePayCase("n-pay-hourly-3", "hourly", Hourly(3), 150, 0),
      NodePayCase("n-pay-daily-2", "daily", Daily(2), 1800, 50),
-     NodePayCase("n-pay-hourly-nearmax", "hourly", Hourly(TOP - 1), 150, 0),
+     NodeNearmaxCase("n-pay-hourly-nearmax", "hourly", Hourly(TOP - 1), 150),
      NodeFeeCase("n-fee-hourly-3", "hourly", Hourly(3), 150, 0),
      NodeFeeCase("n-fee-daily-2", "daily", Daily(2), 1800, 50),
      NodeMixedCase("n-mixed-daily-2", "daily", Daily(2), Daily(2), 1800) >>
